@@ -1,0 +1,31 @@
+//go:build verif
+
+package ecs
+
+// Contracts for util.go and id_map.go.
+
+//@ func capPow2
+//@   serves C01 C15
+//@   requires required <= 1<<31
+//@   ensures  pow2: result != 0 && result & (result-1) == 0
+//@   ensures  covers: result >= required
+//@   ensures  least: required > 1 ==> result/2 < required
+//@   ensures  one: required <= 1 ==> result == 1
+
+//@ pred idMapInv(m *idMap) :=
+//@   forall i uint8 :: mhas(m.used, i) ==> uint64(i) < uint64(len(m.data))
+
+//@ func (*idMap).Get
+//@   serves C01
+//@   requires idMapInv(m)
+//@   ensures  present: result1 == mhas(m.used, index)
+//@   ensures  value: result1 ==> result0 == m.data[index]
+//@   modifies nothing
+
+//@ func (*idMap).Set
+//@   serves C01
+//@   requires idMapInv(m)
+//@   ensures  inv: idMapInv(m)
+//@   ensures  set: mhas(m.used, index) && m.data[index] == value
+//@   ensures  keys: forall i uint8 :: i != index ==> mhas(m.used, i) == old(mhas(m.used, i))
+//@   ensures  vals: forall i uint8 :: i != index && old(mhas(m.used, i)) ==> m.data[i] == old(m.data[i])
